@@ -98,6 +98,33 @@ def check_case(case):
         res.nontrivial = 1
         res.classes.add("moved")
         return res
+    if case.get("oldfile"):
+        # the system is saved, the file is relabelled as written by an OLDER release (which must load), reloaded, and the reloaded system analysed
+        import json, os
+        from ..sysmodel import build, observe
+        from ..common import quiet_call, workdir
+        from sysloss.system import System
+        path = os.path.join(workdir("c04"), "old.json")
+        build(spec).save(path)
+        doc = json.load(open(path))
+        doc["system"]["version"] = case["oldfile"]
+        json.dump(doc, open(path, "w"))
+        try:
+            s2, _ = quiet_call(System.from_file, path)
+            df, _ = quiet_call(s2.solve)
+        except (RuntimeError,) :
+            return res
+        except Exception as e:
+            res.v(("C04.old-file-raises", type(e).__name__), str(e)[:200])
+            return res
+        obs = observe(df)
+        dd = resolve(spec)
+        for ph in (spec["phases"] or [""]):
+            phys.check_phase(res, spec, obs, ph, 25.0, WANT, dd)
+        res.viol = [(("C04.file-of-older-version",) + sig, det) for sig, det in res.viol]
+        res.nontrivial = 1
+        res.classes.add("oldfile")
+        return res
     s, obs = phys.solve_and_check(res, spec, WANT, rej=case.get("rej", False))
     if obs is not None and fam == "phase" and spec.get("phases") and case.get("chain"):
         # tight iteration budgets: for EVERY budget either RuntimeError or a table in which every phase is converged and the dead rail dead
@@ -152,6 +179,9 @@ def gen_cases(tier):
                         if n <= 2:
                             yield dict(fam="phase", f=f, pal=pal, pol=1, srs=0.37, who=c["n"], pc=["a"], nophase=True)
                             yield dict(fam="phase", f=f, pal=pal, pol=1, srs=0.37, who=c["n"], pc=["a"], reconf=True)
+                            yield dict(fam="phase", f=f, pal=pal, pol=1, srs=0.37, who=c["n"], pc={"b": True})   # dict form of an active-phase list
+                            for ver in ("1.0.0", "1.7.0", "0.9.9"):
+                                yield dict(fam="phase", f=f, pal=pal, pol=1, srs=0.37, who=c["n"], pc=["a"], oldfile=ver)
                             yield dict(fam="phase", f=f, pal=pal, pol=1, srs=0.37, who=c["n"], pc=["b"], rej=True)
                             yield dict(fam="phase", f=f, pal=pal, pol=1, srs=0.37, who=c["n"], pc=["a"], bounce="rename")
                             yield dict(fam="phase", f=f, pal=pal, pol=1, srs=0.37, who=c["n"], pc=["b"], bounce="clear")
